@@ -620,6 +620,9 @@ func (a *Agent) IsKnownRequestID(teamserver TeamServer, RequestID uint32, Comman
 		return true
 	}
 
+	a.JobsMtx.Lock()
+	defer a.JobsMtx.Unlock()
+
 	for i := range a.Tasks {
 		if a.Tasks[i].RequestID == RequestID {
 			return true
@@ -636,6 +639,9 @@ func (a *Agent) AddRequest(job Job) []Job {
 
 // after a request has been completed, we can forget about the RequestID so that it is no longer valid
 func (a *Agent) RequestCompleted(RequestID uint32) {
+	a.JobsMtx.Lock()
+	defer a.JobsMtx.Unlock()
+
 	for i := range a.Tasks {
 		if a.Tasks[i].RequestID == RequestID {
 			a.Tasks = append(a.Tasks[:i], a.Tasks[i+1:]...)
@@ -645,6 +651,9 @@ func (a *Agent) RequestCompleted(RequestID uint32) {
 }
 
 func (a *Agent) AddJobToQueue(job Job) []Job {
+	a.JobsMtx.Lock()
+	defer a.JobsMtx.Unlock()
+
 	// store the RequestID									
 	a.AddRequest(job)
 	// if it's a pivot agent then add the job to the parent
@@ -662,6 +671,9 @@ func (a *Agent) GetQueuedJobs() []Job {
 	var Jobs []Job
 	var JobsSize = 0
 	var NumJobs = 0
+
+	a.JobsMtx.Lock()
+	defer a.JobsMtx.Unlock()
 
 	// make sure we return a number of jobs that doesn't exceed DEMON_MAX_RESPONSE_LENGTH
 	for _, job := range a.JobQueue {
@@ -810,7 +822,10 @@ func (a *Agent) PivotAddJob(job Job) {
 		pivots = &pivots.Parent.Pivots
 	}
 
+	// the direct agent's queue is shared with its own listener and operator goroutines
+	pivots.Parent.JobsMtx.Lock()
 	pivots.Parent.JobQueue = append(pivots.Parent.JobQueue, PivotJob)
+	pivots.Parent.JobsMtx.Unlock()
 }
 
 func (a *Agent) DownloadAdd(FileID int, FilePath string, FileSize int64) error {
